@@ -11,6 +11,7 @@ import (
 	"io"
 	"io/fs"
 	"os"
+	"os/exec"
 	"path/filepath"
 	"runtime"
 	"sort"
@@ -65,6 +66,8 @@ type Behaviour struct {
 	Oracles []string       `json:"oracles"`
 	// C07Every: run the re-index oracle after every step instead of only at the end.
 	C07Every bool `json:"c07every,omitempty"`
+	// GnuTar: at the end, GNU tar --ignore-zeros must list as many members as the scan (C05 second opinion)
+	GnuTar bool `json:"gnutar,omitempty"`
 }
 
 type Finding struct {
@@ -267,6 +270,21 @@ func RunBehaviour(b *Behaviour, ks *sut.KeySet, workRoot string) (res BehResult)
 			compareC13(b, w, st, n, inst, view, rows, issues, add, &res)
 		}
 		compareC05(b, w, st, n, scan, view, rows, add, &res)
+		if b.GnuTar && n == len(b.Steps) && has(b.Oracles, "C05") && b.Cfg.Encryption == "" && b.Cfg.Signature == "" && scan.Err == "" {
+			if tarBin, err := exec.LookPath("tar"); err == nil {
+				res.Checks++
+				out, err := exec.Command(tarBin, "--ignore-zeros", "-t", "-f", inst.Drive).Output() // member names on stdout, warnings on stderr
+				lines := 0
+				for _, l := range strings.Split(strings.TrimRight(string(out), "\n"), "\n") {
+					if l != "" {
+						lines++
+					}
+				}
+				if err != nil || lines != len(scan.Recs) {
+					add("C05", n, st.Call, "GNU tar --ignore-zeros lists %d members (err %v), the tape holds %d records: %s", lines, err, len(scan.Recs), trunc(string(out), 300))
+				}
+			}
+		}
 		if view != nil {
 			compareC04(b, w, st, n, inst, scan, rows, view, add, &res)
 		}
